@@ -509,6 +509,19 @@ def user_criteria():
     return MeanLoss, QuadUtilityLoss, Exp2Loss
 
 
+def flat_criterion():
+    """A risk-averse user criterion with a FLAT region: the expected shortfall below the level 0 (first lower partial moment).
+    Every constant at or above the level is as good as a sample without outcomes below it; the amount reported must still lie
+    in [worst, best] and not exceed the mean."""
+    from pfhedge.nn import HedgeLoss
+
+    class LowerPartialMoment(HedgeLoss):
+        def forward(self, input, target=0.0):
+            return torch.relu(-(input - target)).mean(0)
+
+    return LowerPartialMoment
+
+
 def sum_criterion():
     """A user criterion with reduction 'sum': its value on a constant sample depends on the number of paths, its certainty
     equivalent does not (it is the one of Exp2Loss)."""
@@ -544,6 +557,7 @@ def cash_replay(ctx: Ctx, recs: List[Dict[str, Any]]) -> None:
         ce = [-log2frac(fr(rs[i]["m2"][0])) for i in small]
         crits.append(("user Exp2Loss (default search)", Exp2Loss(), ce, True, 4e-6, small))
         crits.append(("user SumExp2Loss (default search)", sum_criterion()(), ce, True, 4e-6, small))
+        crits.append(("user LowerPartialMoment (default search)", flat_criterion()(), None, True, 4e-6, allc))
         crits.append(("user MeanLoss (default search)", MeanLoss(), [float(fr(r["mean"])) for r in rs], False, 4e-6, allc))
         q = [i for i, r in enumerate(rs) if r["max"] <= 4]
         ceq = []
@@ -619,7 +633,10 @@ def cash_replay(ctx: Ctx, recs: List[Dict[str, Any]]) -> None:
                 bad = ~((cash >= slo - tol - 1e-9) & (cash <= shi + tol + 1e-9))
                 if bool(bad.any()):
                     i = int(bad.nonzero()[0])
-                    ctx.violation(f"cash:{fam}:outside-range", f"{name}.cash outside [worst, best] outcome ({mode})", {"x": rs[cols[i]]["x"], "cash": cash[i].item()})
+                    # a criterion with a flat region, evaluated on SEVERAL samples in one call, has its own key: the default search
+                    # brackets all columns by the global minimum and maximum (known finding); one sample per call must still be right
+                    suffix = ":multi-column" if (fam == "user LowerPartialMoment" and mode != "column by column") else ""
+                    ctx.violation(f"cash:{fam}:outside-range{suffix}", f"{name}.cash outside [worst, best] outcome ({mode})", {"x": rs[cols[i]]["x"], "cash": cash[i].item()})
                 if averse:
                     bad = ~(cash <= smean + tol + 1e-9)
                     if bool(bad.any()):
